@@ -21,6 +21,7 @@ func init() {
 		ID:    "C11",
 		Level: "fault_enumeration",
 		Rule: "enumerated completely: (operation O1 of kafka.Conn) x (negotiated version of its API) x (error field of its response) x (error code: 12 codes in the quick tier, every code -1, 1..97 in the thorough tier) x (following operation O2). O1 runs on connection A whose broker answers with the code in that field; then O2 runs on A and on a fresh connection B against an identical broker; outcome (value digest, error class) must agree. " +
+			"errsplit list: the error-coded response of every (O1, version, field) delivered in two pieces split at every byte position with a pause longer than O1's deadline in between (the connection stays healthy): if O1 reports the broker's code O2 must behave as on a fresh Conn, if it reports a transport error O2 must fail, a value O2 returns must be the fresh one. " +
 			"framing list: wrong correlation id, oversized / undersized frame length, trailing garbage after O1's response: every later operation on A must fail and none may return a value that differs from B's. signature = (O1, version, field, code class, O2); every case is non-trivial (a fault is always injected)",
 		Assumptions: []string{
 			"broker state is identical for A and B: the injected error response replaces the broker's action (nothing is applied)",
@@ -203,6 +204,136 @@ func runC11(c *core.Ctx) {
 		if k.Idx%997 == 0 {
 			c.Sample(map[string]any{"o1": o1.Name, "version": cs.ver, "field": pl.Name, "code": cs.code, "o1_result": fmt.Sprint(e1), "o2": o2.Name, "o2_on_same_conn": fmt.Sprintf("%s / %v", d2a, e2a), "o2_on_fresh_conn": fmt.Sprintf("%s / %v", d2b, e2b)})
 		}
+	})
+
+	// error-coded responses delivered in two pieces with a pause longer than the operation's
+	// deadline between them, at every byte position: the connection itself stays healthy (the
+	// rest does arrive). Whichever way O1 ends, the two clauses must agree with it: a broker
+	// error code reported by O1 means the Conn is still usable (O2 as on a fresh Conn); a
+	// transport error (the deadline) means every later operation fails; and a value returned by
+	// O2 is never built from the late bytes of O1's response.
+	type spCase struct{ o1, ver, pl, k, o2 int }
+	var spCases []spCase
+	spLen := map[[3]int]int{}
+	const spCode = int16(6)
+	o2pick := []int{}
+	for j, o := range ops {
+		if o.Name == "ReadLastOffset" || o.Name == "ReadPartitions" || o.Name == "ReadBatch" || o.Name == "WriteMessages" {
+			o2pick = append(o2pick, j)
+		}
+	}
+	for i, o1 := range ops {
+		for _, v := range o1.Versions {
+			for pi, pl := range c11Placements(o1.API) {
+				if v < pl.MinVer {
+					continue
+				}
+				env := newConnEnv(map[int]int{o1.API: v})
+				cn, err := env.dial()
+				if err != nil {
+					env.Cluster.Close()
+					continue
+				}
+				if o1.API != fakecluster.KApiVersions {
+					cn.ApiVersions()
+				}
+				var n int32
+				var armed int32 = 1
+				inject := pl.Inject
+				env.Cluster.Script = func(rc *fakecluster.ReqCtx) *fakecluster.Action {
+					if rc.Ev.API == o1.API && atomic.CompareAndSwapInt32(&armed, 1, 0) {
+						a := inject(spCode)
+						a.MutateFrame = func(f []byte) []byte { atomic.StoreInt32(&n, int32(len(f))); return f }
+						return a
+					}
+					return nil
+				}
+				o1.Run(cn)
+				cn.Close()
+				env.Cluster.Close()
+				if n == 0 {
+					continue
+				}
+				spLen[[3]int{i, v, pi}] = int(n)
+				step := 1
+				if c.Quick() && n > 120 {
+					step = int(n) / 120
+				}
+				for k := 1; k < int(n); k += step {
+					spCases = append(spCases, spCase{i, v, pi, k, o2pick[(k+i)%len(o2pick)]})
+				}
+			}
+		}
+	}
+	c.Count("split_error_frames_measured", int64(len(spLen)))
+	c.CasesPar("errsplit", len(spCases), 8, func(k *core.Case) {
+		cs := spCases[k.Idx]
+		o1, o2 := ops[cs.o1], ops[cs.o2]
+		pl := c11Placements(o1.API)[cs.pl]
+		n := spLen[[3]int{cs.o1, cs.ver, cs.pl}]
+		if cs.k%16 == 1 {
+			k.Describe(map[string]any{"o1": o1.Name, "version": cs.ver, "field": pl.Name, "code": spCode, "split_at": cs.k, "of": n, "o2": o2.Name})
+		}
+		caps := map[int]int{o1.API: cs.ver}
+		envA := newConnEnv(caps)
+		defer envA.Cluster.Close()
+		a, err := envA.dial()
+		if err != nil {
+			c.Inconclusive("dial A failed: " + err.Error())
+			return
+		}
+		defer a.Close()
+		if o1.API != fakecluster.KApiVersions {
+			a.ApiVersions()
+		}
+		var armed int32 = 1
+		envA.Cluster.Script = func(rc *fakecluster.ReqCtx) *fakecluster.Action {
+			if rc.Ev.API == o1.API && atomic.CompareAndSwapInt32(&armed, 1, 0) {
+				act := pl.Inject(spCode)
+				if act.Kind == fakecluster.ActError {
+					act.ErrorBody = true
+				}
+				act.Kind, act.CutAt, act.SplitPause = fakecluster.ActSplit, cs.k, 70*time.Millisecond
+				return act
+			}
+			return nil
+		}
+		a.SetDeadline(time.Now().Add(25 * time.Millisecond))
+		d1, e1 := o1.Run(a)
+		c.Eval(1)
+		a.SetDeadline(time.Now().Add(3 * time.Second))
+		d2a, e2a := o2.Run(a)
+		envB := newConnEnv(caps)
+		defer envB.Cluster.Close()
+		b, err := envB.dial()
+		if err != nil {
+			c.Inconclusive("dial B failed: " + err.Error())
+			return
+		}
+		defer b.Close()
+		d2b, e2b := o2.Run(b)
+		var ke kafka.Error
+		where := fmt.Sprintf("%s.v%d:%s", o1.Name, cs.ver, pl.Name)
+		what := fmt.Sprintf("%s (v%d) was answered with error code %d in %s, the response arriving in two pieces (%d of %d bytes, the rest 70 ms later, after the operation's 25 ms deadline); it returned (%q, %v); then %s on the same Conn returned (%q, %v), on a fresh Conn (%q, %v)", o1.Name, cs.ver, spCode, pl.Name, cs.k, n, d1, e1, o2.Name, d2a, e2a, d2b, e2b)
+		outcome := "o1-ok"
+		switch {
+		case e1 != nil && errors.As(e1, &ke):
+			outcome = "o1-broker-code"
+			if errClass(e2a) != errClass(e2b) || (e2a == nil && d2a != d2b && !o2.Mutating) {
+				k.Viol("c11:unusable-after-error:"+where+":late-tail", "the Conn reported the broker's error code, so it must remain usable: "+what, nil)
+			}
+		case e1 != nil:
+			outcome = "o1-transport-error"
+			if e2a == nil {
+				k.Viol("c11:alive-after-transport-error:"+where+":late-tail", "the operation failed with a transport-level error, every later operation must fail: "+what, nil)
+			}
+		default:
+			if e2a == nil && e2b == nil && d2a != d2b && !o2.Mutating {
+				k.Viol("c11:misaligned-value:"+where+":late-tail", what, nil)
+			}
+		}
+		c.Count("errsplit:"+outcome, 1)
+		c.Distinct(fmt.Sprintf("errsplit %s v%d %s %s k%d/8", o1.Name, cs.ver, pl.Name, outcome, cs.k*8/n))
 	})
 
 	// framing faults: afterwards the connection must be dead, never misread
